@@ -94,6 +94,33 @@ def unguarded_acos(M):
     return bad
 
 
+def quat_log_principal(w, rep, rule, prefix=""):
+    Q = w.G("SO3Quat")
+    X, q = w.fresh(Q, "q")
+    qa = sym_atoms_of(q)
+    W = w.method_where(Q, "log")[:2]
+    ok, L = guarded(w, rep, rule, prefix + "SO3Quat.log", lambda: closed(w, w.param(w.call(X, "log"))))
+    if not ok:
+        return
+    nrm = cm.un("sqrt", cm.sumsqr(q).s())
+
+    def textbook(qv):
+        c = cm.ew(qv, cm.scalar(nrm), cm.pdiv)
+        a = cm.un("acos", c.cells[0][0])
+        coef = cm.pdiv(a.scale(2), cm.un("sin", a))
+        return cm.ew(w.sl(c, 1, 4), cm.scalar(coef), cm.pmul)
+    for s, label, ref in ((1, "q0 > 0", textbook(q)), (-1, "q0 < 0", textbook(cm.neg(q)))):
+        got = assume_sign(L, qa[0], s)
+        inst = prefix + "SO3Quat.log is the principal rotation vector 2 acos(|q0|) n for %s" % label
+        v, d = decide_mat(got, ref)
+        if v == EQUAL:
+            rep.ok(rule, inst)
+        elif v == DIFFERENT:
+            rep.fail(rule, inst, "log(q) is not the smallest-angle rotation vector when %s (log(-q) != log(q): the rotation angle exceeds pi): %s" % (label, d), where=W)
+        else:
+            rep.incomplete(rule, inst, "cannot decide: %s" % d, where=W)
+
+
 def check_logs(w, rep, tier):
     so3 = w.G("so3")
     # ---- API for all groups
@@ -108,29 +135,7 @@ def check_logs(w, rep, tier):
 
     with with_maxdeg(30):
         # ---- quaternion: principal log, independent of the sign of q (decided on q0 > 0 and q0 < 0 separately)
-        Q = w.G("SO3Quat")
-        X, q = w.fresh(Q, "q")
-        qa = sym_atoms_of(q)
-        W = w.method_where(Q, "log")[:2]
-        ok, L = guarded(w, rep, "C03.quat", "SO3Quat.log", lambda: closed(w, w.param(w.call(X, "log"))))
-        if ok:
-            nrm = cm.un("sqrt", cm.sumsqr(q).s())
-
-            def textbook(qv):
-                c = cm.ew(qv, cm.scalar(nrm), cm.pdiv)
-                a = cm.un("acos", c.cells[0][0])
-                coef = cm.pdiv(a.scale(2), cm.un("sin", a))
-                return cm.ew(w.sl(c, 1, 4), cm.scalar(coef), cm.pmul)
-            for s, label, ref in ((1, "q0 > 0", textbook(q)), (-1, "q0 < 0", textbook(cm.neg(q)))):
-                got = assume_sign(L, qa[0], s)
-                inst = "SO3Quat.log is the principal rotation vector 2 acos(|q0|) n for %s" % label
-                v, d = decide_mat(got, ref)
-                if v == EQUAL:
-                    rep.ok("C03.quat", inst)
-                elif v == DIFFERENT:
-                    rep.fail("C03.quat", inst, "log(q) is not the smallest-angle rotation vector when %s (log(-q) != log(q): the rotation angle exceeds pi): %s" % (label, d), where=W)
-                else:
-                    rep.incomplete("C03.quat", inst, "cannot decide: %s" % d, where=W)
+        quat_log_principal(w, rep, "C03.quat")
         # ---- MRP
         Mr = w.G("SO3Mrp")
         X, r = w.fresh(Mr, "r")
